@@ -115,23 +115,21 @@ theorem step1_shape (be : Bool) (flat : List Nat) (hb : ∀ x ∈ flat, x < 256)
     split at h
     · cases h
     · split at h
-      · injection h with h _; rw [← h]; exact Shape8.nil
       · split at h
-        · split at h
+        · cases h
+        · rename_i c2 hl2
+          split at h
           · cases h
-          · rename_i c2 hl2
-            split at h
-            · cases h
-            · rename_i hc2
-              injection h with h _; rw [← h]
-              apply Shape8.one
-              have : c2 % 1024 < 1024 := Nat.mod_lt _ (by omega)
-              unfold scalar; omega
-        · split at h
-          · cases h
-          · injection h with h _; rw [← h]
+          · rename_i hc2
+            injection h with h _; rw [← h]
             apply Shape8.one
+            have : c2 % 1024 < 1024 := Nat.mod_lt _ (by omega)
             unfold scalar; omega
+      · split at h
+        · cases h
+        · injection h with h _; rw [← h]
+          apply Shape8.one
+          unfold scalar; omega
 
 theorem runTo_shape (be : Bool) (flat : List Nat) (hb : ∀ x ∈ flat, x < 256) (e : Nat) : ∀ (f pos : Nat) (out : List Nat) {out' : List Nat} {s : Nat},
     Shape8 out → runTo be flat e f pos out = .ok out' s → Shape8 out' := by
